@@ -401,6 +401,34 @@ def check_model(model, rec):
             if isinstance(a, numpy.ndarray) and not (isinstance(b, numpy.ndarray) and U.result_equal(a, b, 0.0)):
                 return [Failure("model_results_differ_after_run|%s" % type(p1.commands[name]).__name__, "%s\n%s" % (name, s_after))]
         rec.label("model_serialised_after_run")
+        if model.get("twin"):
+            # the same model description (the very same argument objects) used for two programs on two tables; the other one
+            # has run already: this one's text, loaded back, is the same program and runs to the same results as this one
+            from . import c02
+
+            progs, tmps, _ = c02.twin_programs(model)
+            try:
+                try:
+                    progs[0].run()
+                    sb = progs[1].to_string()
+                    progs[1].run()
+                    pb = Program.from_source(sb, libraries=EEMS_CSV_LIBRARIES, working_dir=tmps[1])
+                    pb.run()
+                except Exception as exc:
+                    rec.exclude("twin_does_not_run:%s" % type(exc).__name__)
+                    return []
+                rec.label("model_twin_programs_from_shared_arguments")
+                diff = compare_programs(progs[1], pb)
+                if diff:
+                    return [Failure("model_twin_%s" % diff[0], "%r\n%s" % (diff, sb))]
+                for name in pb.commands:
+                    a, b = progs[1].commands[name].result, pb.commands[name].result
+                    if isinstance(a, numpy.ndarray) and not (isinstance(b, numpy.ndarray) and U.result_equal(a, b, 0.0)):
+                        return [Failure("model_twin_results_differ|%s" % type(pb.commands[name]).__name__,
+                                        "%s: the program built from argument objects shared with a program that ran before, and its own text loaded back\n%s" % (name, sb))]
+            finally:
+                for t in tmps:
+                    shutil.rmtree(t, ignore_errors=True)
         if any(n.get("meta") for n in model["nodes"]) or any(
                 isinstance(v, float) for n in model["nodes"] for v in n.get("params", {}).values()):
             rec.nontrivial_case(model)
@@ -606,4 +634,5 @@ PARTS = {"kinds": check_kinds, "model": check_model, "reader": check_reader}
 def run_shard(ctx, rec):
     drive_enum(ctx, rec, "reader", reader_cases(), check_reader, exhaustive=True)
     drive(ctx, rec, "kinds", kinds_cases(), check_kinds, ctx.n(3000, 100000), max_novel=8)
-    drive(ctx, rec, "model", M.typed_models(max_nodes=6), check_model, ctx.n(500, 10000))
+    drive(ctx, rec, "model", st.builds(lambda m, t: dict(m, twin=t), M.typed_models(max_nodes=6), st.sampled_from([False, False, True])),
+          check_model, ctx.n(500, 10000))
